@@ -2,7 +2,7 @@ import OjgVerif.Writer.Pretty
 import OjgVerif.Writer.LemmasParse
 /-! Lemmas about the `pretty` model WITHOUT alignment: `fill` appends a text that is a function of
 the tree (`ptext`: the same tokens as the `oj` writers, other white space), and the RFC 8259 reader
-gives back the tree minus the members `skipP` names. -/
+gives back the tree minus the members OmitNil / OmitEmpty name. -/
 set_option linter.unusedSimpArgs false
 set_option linter.unusedVariables false
 namespace OjgVerif.Writer.Pretty
@@ -297,59 +297,29 @@ theorem fill_flat (w : PW) (lim : Option Nat) (ord : Kvs → Kvs) (ha : w.o.alig
 
 /-! ### `skip` marks against the specification-side rule -/
 
-theorem skipPAll_eq_all (on oe : Bool) : ∀ kvs : Kvs,
-    skipPAll on oe kvs = kvs.all fun kv => skipP on oe kv.2 := by
-  intro kvs
-  induction kvs with
-  | nil => rfl
-  | cons kv r ih => obtain ⟨k, v⟩ := kv; simp [skipPAll, ih]
+/-- the `skip` mark of a node is the documented rule: nil under OmitNil; empty string, slice, map
+under OmitEmpty -/
+theorem build_skip (o : POpts) (ord : Kvs → Kvs) (f : Nat) (v : JV) :
+    (build o ord (f + 1) v).skip = omits (ojOptsOf o) v := by
+  cases v with
+  | null => simp [build, PNode.skip, omits, ojOptsOf]
+  | bool b => cases b <;> simp [build, PNode.skip, omits]
+  | int i => simp [build, PNode.skip, omits]
+  | flt t => simp [build, PNode.skip, omits]
+  | big t => simp [build, PNode.skip, omits]
+  | num t => simp [build, PNode.skip, omits]
+  | str x => cases x <;> simp [build, PNode.skip, omits, ojOptsOf]
+  | arr xs => cases xs <;> simp [build, PNode.skip, omits, ojOptsOf]
+  | obj kvs => cases kvs <;> simp [build, PNode.skip, omits, ojOptsOf]
 
-theorem all_perm {α : Type} (p : α → Bool) (l₁ l₂ : List α) (h : l₁.Perm l₂) : l₁.all p = l₂.all p := by
-  rw [Bool.eq_iff_iff]
-  simp only [List.all_eq_true]
-  exact ⟨fun h1 x hx => h1 x (h.mem_iff.mpr hx), fun h1 x hx => h1 x (h.mem_iff.mp hx)⟩
-
-theorem build_skip (o : POpts) (ord : Kvs → Kvs) (hord : IsOrder ord) :
-    ∀ (f : Nat) (v : JV), depth v < f → (build o ord f v).skip = skipP o.omitNil o.omitEmpty v := by
-  intro f
-  induction f with
-  | zero => intro v h; omega
-  | succ f ih =>
-    intro v hf
-    cases v with
-    | null => simp [build, PNode.skip, skipP]
-    | bool b => cases b <;> simp [build, PNode.skip, skipP]
-    | int i => simp [build, PNode.skip, skipP]
-    | flt t => simp [build, PNode.skip, skipP]
-    | big t => simp [build, PNode.skip, skipP]
-    | num t => simp [build, PNode.skip, skipP]
-    | str x => cases x <;> simp [build, PNode.skip, skipP]
-    | arr xs => cases xs <;> simp [build, PNode.skip, skipP]
-    | obj kvs =>
-      simp only [depth] at hf
-      have hperm : (sortKvs (ord kvs)).Perm kvs := (sortKvs_perm _).trans (hord kvs)
-      have hmem : ∀ kv ∈ sortKvs (ord kvs), (build o ord f kv.2).skip = skipP o.omitNil o.omitEmpty kv.2 := by
-        intro kv hkv
-        have := depth_mem_kvs kvs kv (hperm.mem_iff.mp hkv)
-        exact ih kv.2 (by omega)
-      have hlen : (decide (((buildMembers o (build o ord f) (sortKvs (ord kvs)) [] 2 0).1).length = 0)) =
-          skipPAll o.omitNil o.omitEmpty kvs := by
-        rw [buildMembers_fst, skipPAll_eq_all, ← all_perm _ _ _ hperm, Bool.eq_iff_iff]
-        simp only [List.reverse_nil, List.nil_append, List.length_map, decide_eq_true_eq, List.length_eq_zero_iff,
-          List.filter_eq_nil_iff, List.all_eq_true, Bool.not_eq_true', Bool.not_eq_false]
-        exact ⟨fun h kv hkv => by rw [← hmem kv hkv]; simpa using h kv hkv,
-          fun h kv hkv => by rw [hmem kv hkv]; simpa using h kv hkv⟩
-      simp only [build, PNode.skip, skipP, hlen]
-
-/-- the members `pretty` writes are those the specification-side rule keeps -/
-theorem keptP_eq (w : PW) (ord : Kvs → Kvs) (hord : IsOrder ord) (f : Nat) (kvs : Kvs) (hf : depthKvs kvs < f) :
-    keptP w ord f kvs = (sortKvs (ord kvs)).filter fun kv => !skipP w.o.omitNil w.o.omitEmpty kv.2 := by
-  have hperm : (sortKvs (ord kvs)).Perm kvs := (sortKvs_perm _).trans (hord kvs)
+/-- the members `pretty` writes are those the options keep -/
+theorem keptP_eq (w : PW) (ord : Kvs → Kvs) (f : Nat) (kvs : Kvs) (hf : 0 < f) :
+    keptP w ord f kvs = (sortKvs (ord kvs)).filter fun kv => !omits (ojOptsOf w.o) kv.2 := by
+  obtain ⟨f', rfl⟩ : ∃ f', f = f' + 1 := ⟨f - 1, by omega⟩
   simp only [keptP]
   apply List.filter_congr
-  intro kv hkv
-  have := depth_mem_kvs kvs kv (hperm.mem_iff.mp hkv)
-  rw [build_skip w.o ord hord f kv.2 (by omega)]
+  intro kv _
+  rw [build_skip]
 
 /-! ### reading `ptext` back -/
 
@@ -423,14 +393,14 @@ theorem ptext_head (w : PW) (ord : Kvs → Kvs) (f : Nat) (v : JV) (d : Nat) (fl
     · exact ⟨123, _, rfl, by decide⟩
     · exact ⟨123, _, rfl, by decide⟩
 
-/-- the RFC 8259 reader applied to `ptext` gives the tree minus the members `skipP` names, members in
+/-- the RFC 8259 reader applied to `ptext` gives the tree minus the members the options name, members in
 ascending key order; the reader's fuel only has to exceed the length of the text -/
 theorem parse_ptext (hs : TableSafe Gen.Root.jMap) (hsp : (Gen.Pretty.spaces.toList.all Spec.isWs) = true)
     (w : PW) (ord : Kvs → Kvs) (hord : IsOrder ord) :
     ∀ (f : Nat) (v : JV) (d : Nat) (flat : Bool) (g : Nat) (rest : Bytes), okW v → depth v < f →
       (ptext w ord f v d flat).length < g → follows rest = true →
       Spec.pValue g (ptext w ord f v d flat ++ rest) =
-        some (normG (skipP w.o.omitNil w.o.omitEmpty) true ord f v, rest) := by
+        some (normG (omits (ojOptsOf w.o)) true ord f v, rest) := by
   intro f
   induction f with
   | zero => intro v d flat g rest _ h; omega
@@ -493,11 +463,11 @@ theorem parse_ptext (hs : TableSafe Gen.Root.jMap) (hsp : (Gen.Pretty.spaces.toL
             (tElems tv l.1 r ++ l.2.1 ++ 93 :: rest))) = b :: (t ++ (tElems tv l.1 r ++ l.2.1 ++ 93 :: rest)) := by
           rw [skipWs_ws_append _ _ hcs0, hb, List.cons_append, skipWs_nonws b _ hws]
         have h1' : Spec.pValue g (b :: (t ++ (tElems tv l.1 r ++ l.2.1 ++ 93 :: rest))) =
-            some (normG (skipP w.o.omitNil w.o.omitEmpty) true ord f x, tElems tv l.1 r ++ l.2.1 ++ 93 :: rest) := by
+            some (normG (omits (ojOptsOf w.o)) true ord f x, tElems tv l.1 r ++ l.2.1 ++ 93 :: rest) := by
           rw [← List.cons_append, ← hb]; exact h1
         have hopen := pValue_open_arr g _ _ _ b _ hsk hn93 h1'
-        have htail := pElems_tail (Spec.pValue g) tv (normG (skipP w.o.omitNil w.o.omitEmpty) true ord f) l.1 l.2.1 rest
-          hlw.1 hlw.2 r [normG (skipP w.o.omitNil w.o.omitEmpty) true ord f x]
+        have htail := pElems_tail (Spec.pValue g) tv (normG (omits (ojOptsOf w.o)) true ord f) l.1 l.2.1 rest
+          hlw.1 hlw.2 r [normG (omits (ojOptsOf w.o)) true ord f x]
           ((tElems tv l.1 r ++ l.2.1 ++ 93 :: rest).length + 1)
           (by have := tElems_length tv l.1 r; simp; omega)
           (fun y hy => hth y (okW_mem_list _ hok y (by simp [hy])))
@@ -515,16 +485,16 @@ theorem parse_ptext (hs : TableSafe Gen.Root.jMap) (hsp : (Gen.Pretty.spaces.toL
       simp only [okW] at hok
       simp only [depth] at hf
       have hperm : (sortKvs (ord kvs)).Perm kvs := (sortKvs_perm _).trans (hord kvs)
-      have hkeq := keptP_eq w ord hord f kvs (by omega)
+      have hkeq := keptP_eq w ord f kvs (by omega)
       have hsub : (keptP w ord f kvs).Sublist (sortKvs (ord kvs)) := List.filter_sublist
       have hmem : ∀ kv ∈ keptP w ord f kvs, kv ∈ kvs := fun kv h => hperm.mem_iff.mp (hsub.subset h)
       have hnd : ((keptP w ord f kvs).map (fun kv => sanitize kv.1)).Nodup :=
         (hsub.map _).nodup ((hperm.map _).nodup_iff.mpr hok.1)
       have hlw := lay_ws hsp w ord (f + 1) (.obj kvs) d flat
       generalize hl : lay w ord (f + 1) (.obj kvs) d flat = l at hlw
-      have hnorm : normG (skipP w.o.omitNil w.o.omitEmpty) true ord (f + 1) (.obj kvs) =
+      have hnorm : normG (omits (ojOptsOf w.o)) true ord (f + 1) (.obj kvs) =
           .obj ((keptP w ord f kvs).map fun kv =>
-            (sanitize kv.1, normG (skipP w.o.omitNil w.o.omitEmpty) true ord f kv.2)) := by
+            (sanitize kv.1, normG (omits (ojOptsOf w.o)) true ord f kv.2)) := by
         simp only [normG, normMembers_eq, order, ↓reduceIte, hkeq]
       rw [hnorm]
       simp only [ptext, hl] at hg ⊢
@@ -567,7 +537,7 @@ theorem parse_ptext (hs : TableSafe Gen.Root.jMap) (hsp : (Gen.Pretty.spaces.toL
           hokx (by simp at hdx; omega) hlen1 hfol
         have hm := pMember_text hs (Spec.pValue g) k (!w.o.htmlUnsafe) [32] (ptext w ord f x (d + 1) l.2.2)
           (tMembers (!w.o.htmlUnsafe) tv l.1 [58, 32] r ++ l.2.1 ++ 125 :: rest)
-          (normG (skipP w.o.omitNil w.o.omitEmpty) true ord f x) (by decide) (hth x hokx) h1
+          (normG (omits (ojOptsOf w.o)) true ord f x) (by decide) (hth x hokx) h1
         have hsk : Spec.skipWs ((if l.2.2 = true then [] else l.1) ++ (jsonString k (!w.o.htmlUnsafe) ++ [58, 32] ++
             ptext w ord f x (d + 1) l.2.2 ++
             (tMembers (!w.o.htmlUnsafe) tv l.1 [58, 32] r ++ l.2.1 ++ 125 :: rest))) =
@@ -579,13 +549,13 @@ theorem parse_ptext (hs : TableSafe Gen.Root.jMap) (hsp : (Gen.Pretty.spaces.toL
         have hm' : Spec.pMember (Spec.pValue g) (34 :: ((escLoop Gen.Root.jMap (!w.o.htmlUnsafe) 0 true k ++ [34]) ++ [58, 32] ++
             ptext w ord f x (d + 1) l.2.2 ++
             (tMembers (!w.o.htmlUnsafe) tv l.1 [58, 32] r ++ l.2.1 ++ 125 :: rest))) =
-            some ((sanitize k, normG (skipP w.o.omitNil w.o.omitEmpty) true ord f x),
+            some ((sanitize k, normG (omits (ojOptsOf w.o)) true ord f x),
               tMembers (!w.o.htmlUnsafe) tv l.1 [58, 32] r ++ l.2.1 ++ 125 :: rest) := by
           simpa only [jsonString, List.cons_append] using hm
         have hopen := pValue_open_obj g _ _ _ 34 _ _ hsk (by decide) hm'
-        have htail := pMembers_tail hs (Spec.pValue g) tv (normG (skipP w.o.omitNil w.o.omitEmpty) true ord f)
+        have htail := pMembers_tail hs (Spec.pValue g) tv (normG (omits (ojOptsOf w.o)) true ord f)
           (!w.o.htmlUnsafe) l.1 l.2.1 [32] rest hlw.1 hlw.2 (by decide) r
-          [(sanitize k, normG (skipP w.o.omitNil w.o.omitEmpty) true ord f x)]
+          [(sanitize k, normG (omits (ojOptsOf w.o)) true ord f x)]
           ((tMembers (!w.o.htmlUnsafe) tv l.1 [58, 32] r ++ l.2.1 ++ 125 :: rest).length + 1)
           (by have := tMembers_length (!w.o.htmlUnsafe) tv l.1 [58, 32] r; simp; omega)
           (fun kv hkv => hth kv.2 (hokm kv (by simp [hkv])))
@@ -700,15 +670,5 @@ theorem prettyWriteTo_flatten (o : POpts) (ord : Kvs → Kvs) (limit : Nat) (v :
   simp only [Bool.false_eq_true, ↓reduceIte]
   rw [chunks_flatten]
   exact h.2
-
-/-! ### no omission -/
-
-/-- with neither option set nothing is left out by either rule -/
-theorem skipP_off : skipP false false = fun _ => false := by
-  funext v; cases v <;> simp [skipP]
-
-theorem omits_off (o : Opts) (h1 : o.omitNil = false) (h2 : o.omitEmpty = false) : omits o = fun _ => false := by
-  funext v; cases v <;> simp [omits, h1, h2]
-
 
 end OjgVerif.Writer.Pretty
